@@ -41,6 +41,7 @@ type CheckReport struct {
 	ByBackend    map[string]int
 	Bounded      []string
 	KnownHit     []string
+	Retried      int // obligations that timed out in the quick budget and were retried with the long budget
 }
 
 func loadKnownFindings() []KnownFinding {
@@ -188,6 +189,56 @@ func runCheck(prop, tier string, overlay map[string][]byte, quiet bool) (int, *C
 		}(i, o)
 	}
 	wg.Wait()
+	// A timeout in the quick tier is retried once with a longer budget before it is reported: on a
+	// busy machine an obligation that normally takes a few seconds can exceed the quick budget, and a
+	// load-dependent alarm on an unchanged tree is a false alarm. Only undecided (never sat) results
+	// are retried, and only when they are few - many timeouts at once are not load noise.
+	if tier != "thorough" {
+		var retry []int
+		for i, r := range results {
+			if r != nil && r.Status == "undecided" {
+				retry = append(retry, i)
+			}
+		}
+		if n := len(retry); n > 0 && n <= 16 {
+			long := 60
+			if v := envInt("GOWP_RETRY_TIMEOUT"); v > 0 {
+				long = v
+			}
+			var wg2 sync.WaitGroup
+			for _, i := range retry {
+				wg2.Add(1)
+				go func(i int) {
+					defer wg2.Done()
+					sem <- struct{}{}
+					defer func() { <-sem }()
+					o := obls[i]
+					r := RunSolvers(o.Render(false), long, false)
+					r.Elapsed += results[i].Res.Elapsed
+					or := &OblResult{O: o, Res: r}
+					switch {
+					case o.Cover && r.Status == "sat":
+						or.Status = "cover-ok"
+					case o.Cover && r.Status == "unsat":
+						or.Status = "cover-vacuous"
+					case o.Cover:
+						or.Status = "cover-unknown"
+					case r.Status == "unsat":
+						or.Status = "proved"
+					case r.Status == "sat":
+						or.Status = "failed"
+					case r.Status == "disagree":
+						or.Status = "disagree"
+					default:
+						or.Status = "undecided"
+					}
+					results[i] = or
+				}(i)
+			}
+			wg2.Wait()
+			rep.Retried = len(retry)
+		}
+	}
 	rep.Results = results
 	if os.Getenv("GOWP_VERBOSE") != "" {
 		for _, r := range results {
@@ -424,6 +475,7 @@ func writeEvidence(rep *CheckReport, nObl, nDis, violations int, samples []any) 
 			"functions_under_contract": fns,
 			"by_backend":               rep.ByBackend,
 			"solver_time_s":            round3(rep.SolverTime),
+			"retried_after_timeout":    rep.Retried,
 			"samples":                  samples,
 			"anchor_missing":           rep.AnchorMiss,
 			"bounded":                  rep.Bounded,
@@ -487,6 +539,7 @@ func (eng *Engine) encodeGroup(prop string, groupPkgs []string, withInline bool,
 		inGroup[p] = true
 	}
 	var obls []*Obligation
+	usedExterns := map[string]*FuncContract{}
 	var pkgs []string
 	pkgs = append(pkgs, groupPkgs...)
 	if withInline {
@@ -548,6 +601,9 @@ func (eng *Engine) encodeGroup(prop string, groupPkgs []string, withInline bool,
 				rep.Assumptions["A-fp: float operations are uninterpreted functions with the axioms listed in DESIGN.md"] = true
 			}
 			obls = append(obls, enc.obls...)
+			for k, xfc := range enc.usedExterns {
+				usedExterns[k] = xfc
+			}
 		}
 		for _, lm := range cf.Lemmas {
 			if !hasProp(lm.Props, prop) || lm.Axiom {
@@ -566,6 +622,41 @@ func (eng *Engine) encodeGroup(prop string, groupPkgs []string, withInline bool,
 			}
 			obls = append(obls, o)
 		}
+	}
+	// An assumed (extern) contract on a function of lnd itself whose body is loaded in this run is not
+	// left assumed: the body is verified against the contract as the calling package states it.
+	for _, key := range sortedKeys(usedExterns) {
+		xfc := usedExterns[key]
+		if !strings.Contains(key, "github.com/lightningnetwork/lnd/") || xfc.Unchecked {
+			continue
+		}
+		fn := eng.findFunction(key)
+		if fn == nil || len(fn.Blocks) == 0 || fn.Pkg == nil {
+			continue // body not loaded (export data only): stays an assumption
+		}
+		lpT := eng.pkgByPath[fn.Pkg.Pkg.Path()]
+		if lpT == nil {
+			continue
+		}
+		enc, err := eng.encodeFunction(lpT, fn, xfc)
+		if err != nil {
+			rep.EngineErrors = append(rep.EngineErrors, err.Error())
+			continue
+		}
+		short := shortKey(key)
+		delete(rep.Assumptions, "assumed contract (not verified here): "+short)
+		rep.Functions = append(rep.Functions, shortFnName(fn)+" [contract stated by "+shortKey(xfc.PkgPath)+"]")
+		for a := range enc.assumps {
+			rep.Assumptions[a] = true
+		}
+		for k := range enc.assumpEffectFree {
+			rep.Assumptions["effect-free callee (A-log): "+shortKey(k)] = true
+		}
+		rep.AnchorMiss = append(rep.AnchorMiss, enc.anchorMissing...)
+		for _, o := range enc.obls {
+			o.Name = o.Name + "@" + shortKey(xfc.PkgPath)
+		}
+		obls = append(obls, enc.obls...)
 	}
 	*oblsOut = append(*oblsOut, obls...)
 	return 0
